@@ -251,6 +251,7 @@ def run(ctx: lib.Ctx) -> None:
                 ctx.case(('key_hash', text), kind=f'KeyHashType:roundtrip:{kind}')
                 if ok1:
                     d = bytes.fromhex(m['bytes'])
+                    typed(0, ki, True, h, b'', out_bytes(True, d), ('KeyHashType.to_micheline_value', text))
                     typed(9, 0, False, d, b'', addr_out(ok2, w.value if ok2 else None, False), ('KeyHashType.from_micheline_value', d.hex()))
                 if not (ok and ok1 and ok2) or w.value != text:
                     report('a key hash does not survive the optimized form' + (' (kind confusion)' if ok2 and w.value[:3] != text[:3] else ''),
@@ -268,6 +269,8 @@ def run(ctx: lib.Ctx) -> None:
             ok1, v = lib.call(D.KeyType.from_value, text)
             ok2, m = lib.call(v.to_micheline_value, mode='optimized') if ok1 else (False, None)
             ok3, w = lib.call(D.KeyType.from_micheline_value, m) if ok2 else (False, None)
+            if ok2:
+                typed(4, ki, False, p, b'', out_bytes(True, bytes.fromhex(m['bytes'])), ('KeyType.to_micheline_value', text))
             if ok:
                 ok4, back = lib.call(F.unforge_public_key, d)
                 typed(5, 0, False, d, b'', out_val(ki, parse_text(table, back)[1]) if ok4 else 'Reject', ('unforge_public_key', d.hex()))
@@ -308,7 +311,7 @@ def run(ctx: lib.Ctx) -> None:
             ok4, back = lib.call(F.unforge_chain_id, d)
             typed(7, 0, False, d, b'', out_bytes(True, parse_text(table, back)[1]) if ok4 else 'Reject', ('unforge_chain_id', d.hex()))
             textual(8, False, chex(d), body_of('Net', p), ok4, back, ('unforge_chain_id', d.hex()))
-        if not (ok1 and ok2 and ok3) or w.value != text:
+        if not (ok1 and ok2 and ok3) or w.value != text or bytes.fromhex(m['bytes']) != p:
             report('a chain id does not survive the optimized form', {'value': text, 'optimized': m, 'read_back': w.value if ok3 else repr(w)})
 
     # ---------------------------------------------------------------- malformed stream + blind_unpack
